@@ -94,3 +94,9 @@ Theorem C12_nonvacuous_rejects_wait_under_lock :
     = [("Remove", KCallback, "wait:WaitGroup.Wait")]%string /\
   check_program (waits_contracts [("Remove", remove_not_waiting)]%string) [("Remove", remove_not_waiting)]%string ["Remove"]%string [] [] = [].
 Proof. exact (conj wait_under_lock_rejected wait_after_unlock_accepted). Qed.
+
+(* a goroutine start or blocking wait that is not on the audited list is reported (per run: Obl_C12.v no_unaudited_concurrency_construct) *)
+Theorem C12_nonvacuous_rejects_unaudited_concurrency :
+  flat_complaints (unaudited [("process", "go")]%string [("process", process_body); ("Reopen", PSeq (PGo (PSeq (PAct (User "wait:chan-send")) PRet)) PRet)]%string)
+  = [("Reopen", KUnauditedConcurrency, "go"); ("Reopen", KUnauditedConcurrency, "wait:chan-send")]%string.
+Proof. exact unaudited_rejected. Qed.
